@@ -34,7 +34,7 @@ func stubIndexUnmarshal(b []byte, i interface{}) error {
 
 // D.D.D or D.D.D-rcN (N a digit); anything else is not a version.
 func stubNewVersion(s string) (*semver.Version, error) {
-	if len(s) != 5 && len(s) != 9 {
+	if len(s) != 5 && len(s) != 9 && len(s) != 8 {
 		return nil, errors.New("Invalid Semantic Version")
 	}
 	if s[1] != '.' || s[3] != '.' {
@@ -45,14 +45,20 @@ func stubNewVersion(s string) (*semver.Version, error) {
 			return nil, errors.New("Invalid Semantic Version")
 		}
 	}
-	pre := ""
+	pre, meta := "", ""
+	if len(s) == 8 { // D.D.D+bN : build metadata, ignored by precedence
+		if s[5:7] != "+b" || s[7] < '0' || s[7] > '9' {
+			return nil, errors.New("Invalid Semantic Version")
+		}
+		meta = s[6:]
+	}
 	if len(s) == 9 {
 		if s[5:8] != "-rc" || s[8] < '0' || s[8] > '9' {
 			return nil, errors.New("Invalid Semantic Version")
 		}
 		pre = s[6:]
 	}
-	return semver.New(uint64(s[0]-'0'), uint64(s[2]-'0'), uint64(s[4]-'0'), pre, ""), nil
+	return semver.New(uint64(s[0]-'0'), uint64(s[2]-'0'), uint64(s[4]-'0'), pre, meta), nil
 }
 
 // the constraint of the query in flight: "" = "*", "=X" handled by Get's exact
@@ -100,8 +106,12 @@ func stubConstraintCheck(cs semver.Constraints, v *semver.Version) bool {
 }
 
 type entrySpec struct {
-	shape   int // 0 valid, 1 nil entry, 2 nil metadata, 3 invalid version string, 4 valid prerelease
+	shape   int // 0 valid, 1 nil entry, 2 nil metadata, 3 invalid version string, 4 valid prerelease, 5 valid with build metadata
 	version string
+}
+
+func ndVersionMeta(name string) string {
+	return ndVersion(name, false) + "+b" + string(rune('1'+ndChoice(name+".meta", 2)))
 }
 
 func ndVersion(name string, pre bool) string {
@@ -159,6 +169,8 @@ func H18Index() {
 			es[k].version = ndVersion("ver", false)
 		case 4:
 			es[k].version = ndVersion("ver", true)
+		case 5:
+			es[k].version = ndVersionMeta("ver")
 		case 3:
 			es[k].version = "bogus"
 		}
@@ -173,7 +185,7 @@ func H18Index() {
 	cvs := idx.Entries["c"]
 	nvalid := 0
 	for _, e := range es {
-		if e.shape == 0 || e.shape == 4 {
+		if e.shape == 0 || e.shape == 4 || e.shape == 5 {
 			nvalid++
 		}
 	}
@@ -208,7 +220,15 @@ func H18Index() {
 			vAssert("get-latest/highest-stable", gerr == nil && gv.Prerelease() == "" && gv.Compare(best) == 0)
 		}
 	case 1: // exact version string (stable or prerelease)
-		q := ndVersion("q", ndBool("qpre"))
+		var q string
+		switch ndChoice("qform", 3) {
+		case 0:
+			q = ndVersion("q", false)
+		case 1:
+			q = ndVersion("q", true)
+		case 2:
+			q = ndVersionMeta("q")
+		}
 		got, gerr := idx.Get("c", q)
 		exact := false
 		for _, cv := range cvs {
@@ -218,8 +238,11 @@ func H18Index() {
 		}
 		if exact {
 			vAssert("get-exact/identical-string", gerr == nil && got.Version == q)
-		} else {
-			vAssert("get-exact/absent-is-error", gerr != nil)
+		} else if gerr == nil {
+			// no identical string: what is returned must at least be the same version (build metadata aside)
+			qv, _ := semver.NewVersion(q)
+			gv, _ := semver.NewVersion(got.Version)
+			vAssert("get-exact/fallback-is-same-version", gv.Equal(qv))
 		}
 	case 2: // range constraint: highest satisfying
 		q := ndVersion("q", false)
